@@ -58,6 +58,25 @@ class Observer:
         fs = ccpipe.check_proc(p, self.I, self.rng, c, n_inputs=n_inputs, tag=tag,
                                small=self.opts.get("small_inputs", False))
         c["procs-checked"] = c.get("procs-checked", 0) + 1
+        # statement-level tie (C02 wave 2): the emitted function body is the model's compL output
+        import ccstmt
+        import common
+        try:
+            r = ccstmt.check_proc_full(p)
+        except common.InfraError:
+            raise
+        except BaseException as e:   # a mutated tree may raise anywhere: that is data, not a crash
+            r = {"status": "skipped", "why": "exception:" + type(e).__name__, "mismatches": []}
+        c["stmt:" + r["status"]] = c.get("stmt:" + r["status"], 0) + 1
+        if r["status"] == "skipped":
+            k = "stmt-skip:" + str(r.get("why", "?")).split(" ")[0][:40]
+            c[k] = c.get(k, 0) + 1
+        elif r["status"] == "mismatch":
+            fs.append({"kind": "stmt-mismatch", "key": "model-correspondence:comp_s",
+                       "what": "emitted function body differs from the model's compL output: " + "; ".join(map(str, r["mismatches"][:3]))[:500],
+                       "real": r.get("real", [])[:60], "model": r.get("model", [])[:60]})
+        elif r.get("modOK") is False:
+            c["stmt:covered-but-modOK-false(F6)"] = c.get("stmt:covered-but-modOK-false(F6)", 0) + 1
         c["procs-checked:" + tag] = c.get("procs-checked:" + tag, 0) + 1
         for f in fs:
             f.update({"program": self.rec["name"], "src": self.src, "hist": hist, "proc_text": str(p)[:3000]})
@@ -91,5 +110,10 @@ class Observer:
     def finish(self):
         if _REC is not None:
             self.rec["cases"] = dict(_REC.cases)
+        try:
+            import ccstmt
+            ccstmt.close()
+        except BaseException:
+            pass
         if self.I:
             self.I.close()
